@@ -32,8 +32,9 @@ class HarnessError(Exception):
     """Something is wrong with the harness itself (never reported as a property violation)."""
 
 
-class RunTimeout(HarnessError):
-    pass
+class RunTimeout(BaseException):
+    """CPU-time cap of a run exceeded.  Not an Exception: neither EAO, nor pyscipopt's callbacks, nor the
+    executors' own `except Exception` clauses may swallow it."""
 
 
 def derive_seed(base, prop, run_index):
